@@ -14,6 +14,10 @@ namespace c06 {
 extern std::vector<std::vector<uint8_t> > g_sent;
 // byte the recvfrom wrapper fills the WHOLE destination buffer with before copying the datagram
 extern uint8_t g_poison;
+// third instance: when set, the recvfrom wrapper does not poison; the destination buffer gets what a
+// persistent receive buffer would hold: the earlier datagrams of this case (0xA5 where nothing was ever
+// received) with the new datagram copied over the front.  Reset at the start of every case.
+extern bool g_prev_mode;
 // number of recvfrom calls that found a datagram / bytes of capacity offered by the last call
 extern unsigned g_rx_calls;
 extern size_t g_rx_cap;
@@ -40,8 +44,15 @@ struct Trace {
     if (a != b) twin_ok = false;
     s += ";s" + vh::str(step++) + "=" + a;
   }
+  // the same with the third (previous-datagram) instance
+  void add3(const std::string &a, const std::string &b, const std::string &c) {
+    if (a != c) twin_ok = false;
+    add(a, b);
+  }
   std::string result() const { return std::string("hz=none;twin=") + (twin_ok ? "1" : "0") + s; }
 };
-static const uint8_t POISON[2] = {0x00, 0xA5};
+static const uint8_t POISON[3] = {0x00, 0xA5, 0xA5};
+// RAII: deliveries inside the scope go to the persistent (previous-datagram) buffer
+struct PrevMode { PrevMode() { g_prev_mode = true; } ~PrevMode() { g_prev_mode = false; } };
 }  // namespace c06
 #endif  // VERIF_C06_H_COMMON_H_
